@@ -199,7 +199,9 @@ class Machine:
             st.ret_log.append(("reg", ops[0], v))
         elif mn == "ret_arr":
             arr = self.array(ops[0]["addr"], pc)
-            st.shared_arrays[ops[0]["addr"]] = list(arr)
+            # in-process semantics of the repository: the host is handed the application's own list (later stores to
+            # this array are host-visible; a re-declaration of the address installs a *new* list and leaves the host's)
+            st.shared_arrays[ops[0]["addr"]] = arr
             st.ret_log.append(("arr", ops[0]["addr"], list(arr)))
         elif mn == "qalloc":
             v = self.rd_or_none(ops[0])
